@@ -37,7 +37,7 @@ def ssp_model(chk):
     cfg = "SspImpl_" + chk.tier
     d = vlib.scratch("C13-ssp")
     out = os.path.join(d, "finals.out")
-    res = vlib.tlc_ok(vlib.tlc("SspImpl", cfg=cfg, workers=16, coverage=True, stdout_path=out, timeout=3000, xmx="16g"), cfg)
+    res = vlib.tlc_ok(vlib.tlc("SspImpl", cfg=cfg, workers=16, coverage=True, stdout_path=out, timeout=3000, xmx="10g"), cfg)
     if res["violated"]:
         raise vlib.FrameworkError("SspImpl violates its own invariants: %s" % res["violated"])
     if res["coverage"].get("Augment", [0, 0])[1] == 0:
